@@ -2359,6 +2359,9 @@ func (t *Terminal) updatePromptOffset() ([]rune, []rune) {
 	_, overflow := t.trimLeft(t.input[:t.cx], maxWidth)
 	minOffset := int(overflow)
 	maxOffset := minOffset + (maxWidth-util.Max(0, maxWidth-t.cx))/2
+	// When nothing left of the cursor fits (e.g. a tab in a narrow window),
+	// minOffset is already the cursor position
+	maxOffset = util.Min(maxOffset, t.cx)
 	t.xoffset = util.Constrain(t.xoffset, minOffset, maxOffset)
 	before, _ := t.trimLeft(t.input[t.xoffset:t.cx], maxWidth)
 	beforeLen := t.displayWidth(before)
